@@ -94,6 +94,19 @@ def runMeas (c : Case) : Res :=
       if degenerate then
         for n in ["volume", "circumradius", "inradius", "circumcenter", "radius_ratio", "normalized_volume"] do
           bad := expectErr n ++ bad
+        -- the facets of a degenerate simplex are judged on their own: a non-degenerate facet has
+        -- its exact measure, an exactly degenerate one must not come back as a positive number
+        if d ≥ 2 then
+          let ffact := Q.ofInt (factorial (d - 1) : Int)
+          for (f, i) in (facets s).zipIdx do
+            let m2 : Q := Q.ofInt (measure2Num f) * qInv (ffact * ffact) * unitPow (2 * (d - 1))
+            if m2.num > 0 then
+              -- conditioning of a facet's Gram determinant is not modelled here: compare at 1e-6
+              bad := checkT ⟨1, 10 ^ 6⟩ s!"facet{i}" (sqrtIv m2) ++ bad
+            else
+              match valOf c s!"facet{i}" with
+              | some (.ok v) => if Q.lt (Q.ofInt 0) v then bad := s!"facet{i} returned {qShow v} for an exactly degenerate facet (exact measure 0)" :: bad
+              | _ => pure ()
       else
         let volIv : Iv := ⟨volExact, volExact⟩
         bad := checkG "volume" volIv ++ bad
@@ -130,6 +143,11 @@ def runMeas (c : Case) : Res :=
             let mIv := sqrtIv m2
             surface := ivAdd surface mIv
             if m2.num > 0 then bad := check s!"facet{i}" mIv ++ bad
+            else
+              -- an exactly degenerate FACET has measure zero: a finite positive value is garbage
+              match valOf c s!"facet{i}" with
+              | some (.ok v) => if Q.lt (Q.ofInt 0) v then bad := s!"facet{i} returned {qShow v} for an exactly degenerate facet (exact measure 0)" :: bad
+              | _ => pure ()
           -- inradius = D V / S
           let inIv := ivDiv (ivScale (Q.ofInt d) volIv) surface
           bad := checkG "inradius" inIv ++ bad
